@@ -222,8 +222,8 @@ def run(ctx):
     ctx.model_check('Geometry_MC', cfg=ctx.pick('Geometry_MC.cfg', 'Geometry_MC_big.cfg'), require_actions=False, workers=4)
     t0 = time.time()
     events = []
-    rounds = ctx.pick(2, 12)
-    per = ctx.pick(dict(pset=6, line=9, box=3, boxf=3, gp=2), dict(pset=25, line=50, box=14, boxf=14, gp=6))
+    rounds = ctx.pick(2, 8)
+    per = ctx.pick(dict(pset=6, line=9, box=3, boxf=3, gp=2), dict(pset=20, line=40, box=10, boxf=10, gp=5))
     modes_done = []
     for adapter, nr in gfx.ALL_MODES:
         m = ModeRun(ctx, adapter, nr, events)
